@@ -5,6 +5,7 @@ import XonshVerif.Model.Regex
 import XonshVerif.Generated.Regexes
 import XonshVerif.Model.DriverTok
 import XonshVerif.Properties.C03
+import XonshVerif.Properties.C09
 namespace XVC
 open XV XV.Rx
 
@@ -35,6 +36,17 @@ def noEarlierPrefix : List String → Bool
   | x :: rest => rest.all (fun y => !(x.isPrefixOf y && x != y)) && noEarlierPrefix rest
 
 theorem longest_operator_first : noEarlierPrefix XV.Gen.ops.reverse = true := by decide +kernel
+
+/-- the same certificate on code-point lists, in the form `XV.Ops.first_listed_is_longest` takes -/
+theorem longest_operator_first_chars : XV.Ops.noEarlierPrefix (XV.Gen.ops.reverse.map String.toList) = true := by decide +kernel
+
+/-- C09 maximal munch on the SHIPPED operator table (regenerated from `tokenize.OPS` on every run): whichever
+    operator the ordered alternation takes first is at least as long as every operator of the table that is a prefix
+    of the remaining text. -/
+theorem shipped_operator_alternation_is_maximal_munch (text o : List Char)
+    (h : XV.Ops.firstPrefix (XV.Gen.ops.reverse.map String.toList) text = some o) :
+    ∀ o' ∈ XV.Gen.ops.reverse.map String.toList, o'.isPrefixOf text = true → o'.length ≤ o.length :=
+  XV.Ops.first_listed_is_longest _ text o longest_operator_first_chars h
 
 theorem tabsize_is_8 : XV.Gen.tabsize = 8 := by decide
 
